@@ -17,9 +17,12 @@
   `quantized_bits` of `QKV.Model.FixedQ`.
 
   `data_format`: both layouts (`Geom.cf`): channels_last reads / writes NHWC, channels_first NCHW
-  (the kernel layout does not depend on it).  `ctorCfg` mirrors the constructors:
-  `QConv2DBatchnorm.__init__` accepts `data_format` and does NOT forward it (the layer is always
-  channels_last), `QDepthwiseConv2DBatchnorm.__init__` forwards it.
+  (the kernel layout does not depend on it).  `ctorCfg` mirrors the constructors: both
+  `QConv2DBatchnorm.__init__` and `QDepthwiseConv2DBatchnorm.__init__` forward `data_format` to
+  their base class (the conv class since fix 8710a09; before it the argument was dropped and the
+  layer always took the process-wide format), whose `Conv2D.__init__` resolves an omitted argument
+  (`None`) to the process-wide `K.image_data_format()` of the moment of construction
+  (`resolveFormat`).  An explicit argument never looks at the process-wide setting.
 
   Layer OBJECTS and their histories (`Obj`, `Op`, `Obj.step`, `Obj.run`): the parameters can be
   replaced between uses (`variable.assign`, `set_weights` — whose list contains the `_iteration`
@@ -134,13 +137,27 @@ def convOp (c : LayerCfg) (x k : T) : T := tabulate c.outLen (c.atFlat x k)
     element `t` (`LayerCfg.chan`; `· % cout` for a channels_last tensor) -/
 def biasAdd (ch : Nat → Nat) (y b : T) : T := y.mapIdx fun t v => v + b.getD (ch t) 0
 
-/-- the configuration the constructors really build from the requested one:
-    `QConv2DBatchnorm.__init__(…, data_format=…)` does not pass `data_format` on to `QConv2D`
-    (whose default is "channels_last"), `QDepthwiseConv2DBatchnorm.__init__` does -/
-def ctorCfg (c : LayerCfg) : LayerCfg :=
-  match c.cls with
-  | .conv => { c with g := { c.g with cf := false } }
-  | .dw => c
+/-- `conv_utils.normalize_data_format(data_format)` inside `Conv2D.__init__` /
+    `DepthwiseConv2D.__init__`: an omitted argument (`None`) is the process-wide
+    `K.image_data_format()` AT CONSTRUCTION (`globalCF`), an explicit one is taken as it is.
+    `true` = "channels_first". -/
+def resolveFormat (globalCF : Bool) (df : Option Bool) : Bool :=
+  match df with
+  | some f => f
+  | none => globalCF
+
+/-- the configuration the constructors build: `QConv2DBatchnorm.__init__(…, data_format=df)` and
+    `QDepthwiseConv2DBatchnorm.__init__(…, data_format=df)` both hand `df` to their base class
+    (`data_format=data_format`; both declare the default `None`), which stores
+    `resolveFormat globalCF df`.  Nothing else of the configuration is touched; the class plays no
+    role.  (Before fix 8710a09 the conv class did not forward the argument:
+    `cf := resolveFormat globalCF none` whatever `df` was.) -/
+def ctorCfg (globalCF : Bool) (df : Option Bool) (c : LayerCfg) : LayerCfg :=
+  { c with g := { c.g with cf := resolveFormat globalCF df } }
+
+/-- the `data_format` entry of `get_config()`: the RESOLVED format (never `None`), which is what
+    `from_config` / `convert_folded_layer_to_unfolded` hand to the next constructor -/
+def LayerCfg.configFormat (c : LayerCfg) : Option Bool := some c.g.cf
 
 /-- the same layer applied to an input of another batch size / spatial extent -/
 def LayerCfg.withInput (c : LayerCfg) (n h w : Nat) : LayerCfg :=
